@@ -1,6 +1,7 @@
 package harness
 
 import (
+	"bytes"
 	"encoding/binary"
 	"encoding/json"
 	"os"
@@ -280,6 +281,7 @@ type TreeCfg struct {
 	SymTargets      []string // extra symlink targets
 	FarTimes        bool     // some entries get mtimes in the years 2300 or 2400 (beyond int64 nanoseconds)
 	UncleanTargets  bool     // also spell some symlink targets uncleanly ("a/", "./a", "a//b", "../../"): target strings must survive verbatim
+	BigXattrs       bool     // one trusted.* value in 12 is 32768..65536 bytes long (tmpfs holds up to 64 KiB)
 	Caps            bool     // give some regular files a security.capability xattr (file capabilities)
 	SiblingSuffixes []string // suffixes for order-sensitive sibling names (nil = default set)
 }
@@ -369,6 +371,12 @@ func genXattrs(t *rapid.T, cfg *TreeCfg, label string, kind Kind) map[string][]b
 		}
 		key := space + rapid.SampledFrom([]string{"k", "key2", "a.b", "Z"}).Draw(t, label+"k")
 		val := rapid.SampledFrom([][]byte{[]byte("v"), {}, []byte("with\x00nul"), []byte("longer value \xff\xfe"), []byte("=")}).Draw(t, label+"v")
+		// (trusted.* only: tmpfs charges user.* values to a per-mount budget that
+		// concurrent cases can exhaust, and a failed setxattr is ignored by design)
+		// and not on the shards that run on a disk file system (ext4 stores one block)
+		if cfg.BigXattrs && space == "trusted." && os.Getenv("VERIF_DISKFS") == "" && rapid.IntRange(0, 11).Draw(t, label+"big") == 0 {
+			val = bytes.Repeat([]byte{'B'}, rapid.SampledFrom([]int{32768, 32769, 40000, 65536}).Draw(t, label+"bigsize"))
+		}
 		out[key] = val
 	}
 	if len(out) == 0 {
